@@ -42,7 +42,8 @@ class Oracle:
                 link_end.append({"link": k, "kind": "ok", "pos": {"link": n.get("link", ans.link_id), "cell": n.cell(ans.end)}})
                 link_speed.append([k, q(ans.speed_kmph)])
         points = [
-            {"link": n.get("link", l.link_id), "start": n.cell(l.start), "stop": n.cell(l.end), "t": int(t), "cell": n.cell(c)}
+            {"link": n.get("link", l.link_id), "start": n.cell(l.start), "stop": n.cell(l.end), "t": int(t), "cell": n.cell(c),
+             "dist": q(l.distance_km), "speed": q(l.speed_kmph)}
             for l, t, c in self.points
         ]
         gc = [{"a": n.cell(a), "b": n.cell(b), "d": q(d)} for (a, b), d in self.gc.items()]
